@@ -339,16 +339,21 @@ func branchTerm(c *term, key ssa.Instruction, n int, pend *decision) bool {
 		d := rs.decisions[rs.pos]
 		panic(engineError{fmt.Sprintf("decision order mismatch: at %v#%d, pending %v#%d", key, n, d.site, d.occ)})
 	}
-	if rs.noCheck == 0 {
-		// decide both sides now: an infeasible side never becomes a work item
-		rt := z3.check(c)
+	if rs.noCheck == 0 || mergeForks > mergeForkLimit {
+		// decide both sides now: an infeasible side never becomes a work item. Inside a
+		// merge region feasibility is normally not checked (a dead alternative only
+		// contributes an unsatisfiable guard), but a region that keeps forking - a
+		// branch inside a loop over input - is switched to checked mode, otherwise
+		// mutually exclusive conditions multiply into 2^k inner paths.
+		extra := rs.pc[rs.pcSent:]
+		rt := z3.check(append(append([]*term(nil), extra...), c)...)
 		if rt == "unsat" {
 			assertPC(mkNot(c))
 			rs.decisions = append(rs.decisions[:rs.pos], decision{key, n, false, false})
 			rs.pos++
 			return false
 		}
-		rf := z3.check(mkNot(c))
+		rf := z3.check(append(append([]*term(nil), extra...), mkNot(c))...)
 		if rf == "unsat" {
 			assertPC(c)
 			rs.decisions = append(rs.decisions[:rs.pos], decision{key, n, true, false})
@@ -357,6 +362,9 @@ func branchTerm(c *term, key ssa.Instruction, n int, pend *decision) bool {
 		}
 	}
 	stats.forks++
+	if rs.noCheck > 0 {
+		mergeForks++
+	}
 	nd := make([]decision, rs.pos, rs.pos+1)
 	copy(nd, rs.decisions[:rs.pos])
 	nd = append(nd, decision{key, n, false, false})
@@ -397,6 +405,11 @@ type outcome struct {
 }
 
 var noMergeAt = map[ssa.Instruction]bool{}
+
+// forks taken inside the current outermost merge region
+var mergeForks int
+
+const mergeForkLimit = 24
 var mapEpoch int
 
 // Results of merged calls are cached across paths: the same function on the same
@@ -462,8 +475,27 @@ func mergeCall(fn *ssa.Function, args []value, free []value) value {
 	return r
 }
 
+// functions currently being merged (outermost first)
+var mergeStack []string
+
+// set when a merged callee turns out to write caller-visible state
+var impureMerged = map[string]bool{}
+
+func impureMerge(what string) {
+	for _, f := range mergeStack {
+		impureMerged[f] = true
+	}
+	panic(engineError{what + " inside a merged (assumed pure) call: " + strings.Join(mergeStack, " > ")})
+}
+
 func mergeCallUncached(fn *ssa.Function, args []value, free []value) value {
 	site := rs.curInstr
+	if rs.noCheck == 0 {
+		mergeForks = 0
+		mergeStack = mergeStack[:0]
+	}
+	mergeStack = append(mergeStack, fn.String())
+	defer func() { mergeStack = mergeStack[:len(mergeStack)-1] }()
 	outer := rs
 	pcBase := len(outer.pc)
 	sub := &wl{items: []item{{doms: snapshotDoms()}}}
